@@ -65,31 +65,25 @@ def main():
             demo = meta.get("demo", {})
             demofiles = [f for f in os.listdir(dst) if f.endswith(".go")]
 
-            def place():
-                placed = []
-                if demo.get("copy_to"):
-                    for f in demofiles:
-                        if f.endswith("_test.go"):
-                            d = os.path.join(wt, demo["copy_to"], "zz_seeded_" + f)
-                            shutil.copy(os.path.join(dst, f), d)
-                            placed.append(d)
-                else:
-                    d = os.path.join(wt, "SEEDED_DEMO")
-                    os.makedirs(d, exist_ok=True)
-                    for f in demofiles:
-                        shutil.copy(os.path.join(dst, f), d)
-                    placed.append(d)
-                return placed
-            placed = place()
             cmd = demo.get("cmd", "")
-            cmd = cmd.replace("SEEDED/1/", "SEEDED_DEMO/").replace("SEEDED/2/", "SEEDED_DEMO/").replace("./SEEDED/1", "./SEEDED_DEMO").replace("./SEEDED/2", "./SEEDED_DEMO")
+            # make the paths the demonstration's command may refer to exist in the scratch worktree
+            for sub in ("SEEDED/1", "SEEDED/2", "SEEDED_DEMO"):
+                d = os.path.join(wt, sub)
+                os.makedirs(d, exist_ok=True)
+                for f in demofiles:
+                    shutil.copy(os.path.join(dst, f), d)
+            if demo.get("copy_to") and "SEEDED/" not in cmd:
+                for f in demofiles:
+                    if f.endswith("_test.go"):
+                        shutil.copy(os.path.join(dst, f), os.path.join(wt, demo["copy_to"], "zz_seeded_" + f))
             rc1, out1, s1 = run(cmd, wt, timeout=1200)
             conf["demo_cmd"] = cmd
             conf["demo_with_patch"] = {"rc": rc1, "tail": out1[-800:], "s": round(s1)}
             run(["git", "apply", "-R", patch], wt)
             rc2, out2, s2 = run(cmd, wt, timeout=1200)
             conf["demo_without_patch"] = {"rc": rc2, "tail": out2[-400:], "s": round(s2)}
-            conf["demo_confirms"] = rc1 != 0 and rc2 == 0
+            failed = lambda rc, out: rc != 0 or "--- FAIL" in out or "\nFAIL" in out or "panic:" in out
+            conf["demo_confirms"] = failed(rc1, out1) and not failed(rc2, out2)
         finally:
             subprocess.run(["git", "-C", "/repo", "worktree", "remove", "--force", wt], capture_output=True)
     # our checks against /repo itself with the patch applied
